@@ -182,6 +182,7 @@ class Engine:
 
     def spec_of(self, mangled):
         v = getattr(self, 'view', None)
+        if not v and self.cur is not None: v = self.cur.options.get('callee_view')
         if v and (mangled + '~' + v) in self.db.funcs: return self.db.funcs[mangled + '~' + v]
         return self.db.funcs.get(mangled)
 
@@ -306,6 +307,7 @@ class Engine:
         return m(e, st)
 
     def e_lit(self, e, st):
+        if e.v is None: return None          # default argument of an external function (not visible in the filtered AST)
         if e.t == 'bool': return z3.BoolVal(bool(e.v))
         if e.t == 'double': return realval(e.v, getattr(e, 'text', None))
         if e.t in INTS: return z3.IntVal(int(e.v))
@@ -605,10 +607,23 @@ class Engine:
         return r
 
     def e_call(self, e, st):
-        if e.kind == 'prim': return self.prim(e, st)
+        if e.kind == 'prim' and not (isinstance(e.fn, str) and e.fn.startswith('ext.')): return self.prim(e, st)
         if e.kind == 'user': return self.user_call(e, st)
         if e.kind == 'callback': return self.callback(e, st)
-        if e.kind == 'ext':
+        if e.kind == 'ext' or (e.kind == 'prim' and isinstance(e.fn, str) and e.fn.startswith('ext.')):
+            nm = e.fn.split(':')[-1].split('.')[-1]
+            if e.fn.startswith('ext:ctor:'):
+                return Str(sym='extobj')
+            if self.cur is not None and nm in self.cur.externs:
+                vals = [self.ev(a, st) for a in e.args]
+                sc = []; tag = []
+                for v in vals:
+                    if isinstance(v, Fun): tag.append(v.uf)
+                    elif isinstance(v, (Seq, Rec, Str, PySeq, Iter)) or v is None: tag.append('obj')
+                    else: sc.append(self.to_real(v) if not z3.is_bool(v) else z3.If(v, z3.RealVal(1), z3.RealVal(0)))
+                self.notes.append('external function %s summarised as an uninterpreted pure function (A6)' % nm)
+                u = self.uf('ext_%s_%s' % (nm, '_'.join(tag)), *([z3.RealSort()] * (len(sc) + 1)))
+                return u(*sc)
             raise E2Error('external call %s has no model' % e.fn)
         raise E2Error('call kind %s' % e.kind)
 
@@ -684,7 +699,7 @@ class Engine:
             a = self.ev(e.args[0], st); b = self.ev(e.args[1], st)
             if a.v is not None and b.v is not None: return z3.BoolVal(a.v == b.v)
             sym, lit = (a, b) if a.v is None else (b, a)
-            return z3.Bool('streq!%s!%s' % (sym.sym, lit.v))
+            return self.streq(sym, lit.v, st)
         if fn == 'seq.eq':
             a = self.ev(e.args[0], st); b = self.ev(e.args[1], st)
             r = fresh('seqeq', z3.BoolSort())
@@ -692,6 +707,20 @@ class Engine:
             st.assume(r == z3.And(a.n == b.n, z3.ForAll([k], z3.Implies(z3.And(0 <= k, k < a.n), z3.Select(a.arr, k) == z3.Select(b.arr, k)))))
             return r
         raise E2Error('primitive %s in value position' % fn)
+
+    def streq(self, sym, lit, st):
+        """one boolean per (string value, literal); different literals are mutually exclusive (R14)"""
+        self._strs = getattr(self, '_strs', {})
+        b = z3.Bool('streq!%s!%s' % (sym.sym, lit))
+        seen = self._strs.setdefault(sym.sym, {})
+        if lit not in seen:
+            for other, ob in seen.items():
+                self._str_axioms = getattr(self, '_str_axioms', [])
+                self._str_axioms.append(z3.Not(z3.And(b, ob)))
+            seen[lit] = b
+        for ax in getattr(self, '_str_axioms', []):
+            if not any(ax.eq(h) for h in st.pc if not isinstance(h, Quant)): st.assume(ax)
+        return b
 
     def iter_range(self, a, b, st):
         ia = self.ev(a, st); ib = self.ev(b, st)
@@ -748,6 +777,7 @@ class Engine:
         k = x.k
         if k == 'num':
             return z3.IntVal(x.v) if isinstance(x.v, int) else realval(x.v, x.text)
+        if k == 'strlit': return Str(v=x.v)
         if k == 'bool': return z3.BoolVal(x.v)
         if k == 'name':
             n = x.name
@@ -819,6 +849,11 @@ class Engine:
                     r, v = self.unify(r, v)
                     r = z3.If(v < r, v, r) if n == 'min' else z3.If(r < v, v, r)
                 return r
+            if n == 'streq':
+                a, b = args
+                if a.v is not None and b.v is not None: return z3.BoolVal(a.v == b.v)
+                sym, lit = (a, b) if a.v is None else (b, a)
+                return self.streq(sym, lit.v, st)
             if n == 'real': return self.to_real(args[0])
             if n == 'sq': return args[0] * args[0]
             if n == 'cube': return args[0] * args[0] * args[0]
@@ -1625,8 +1660,16 @@ class Verifier(Engine):
                                         acc[('fld', o.name, t.name)] = 'whole'
                             else:
                                 self.mod_lv(o, acc, whole=True)
+                    sp_ = self.spec_of(e.fn)
+                    touched = None
+                    if sp_ is not None and sp_.assigns is not None:
+                        touched = set()
+                        for t in sp_.assigns:
+                            y = t
+                            while y.k in ('field', 'index'): y = y.base
+                            if y.k == 'name': touched.add(y.name)
                     for (pn, pt, br), a in zip(f.params, args):
-                        if br: self.mod_lv(a, acc, whole=True)
+                        if br and (touched is None or pn in touched) and pt not in ('prng',): self.mod_lv(a, acc, whole=True)
         for v in e.__dict__.values():
             if isinstance(v, IR.E): self.mod_expr(v, acc)
             elif isinstance(v, list):
@@ -1740,6 +1783,7 @@ class Verifier(Engine):
     # ------------------------------------------------------------ function verification
     def verify_function(self, key):
         fs = self.db.funcs[key]
+        if fs.options.get('trusted'): raise E2Error('%s has a trusted contract; it is an assumption, not a goal' % key)
         self.view = key.split('~')[1] if '~' in key else None
         key = key.split('~')[0]
         f = self.func(key)
